@@ -83,8 +83,32 @@ def stale_map_guard(table, tx):
                         raise vlib.ToolError("package texts do not discriminate: %s line %d reads the same through the map of %s" % (w, ln, v))
 
 
+CFG_OFF = dict(CFG, telemetryVerbosity="OFF")
+
+
 def run(seed, tier, extra_cases=None, use_cache=True):
-    key = "package-%s-%s-%s-%s" % (vlib.driver_hash(), sp.spec_hash(), seed, tier)
+    """the histories under the usual configuration, and a smaller set with telemetry off (a modified result then
+    reports zero propagations: nothing in the glue may depend on the count)"""
+    global CFG
+    a = _run_cfg(seed, tier, extra_cases, use_cache, "")
+    if extra_cases is not None:
+        return a
+    saved = CFG
+    CFG = CFG_OFF
+    try:
+        b = _run_cfg(seed, tier, None, use_cache, "off")
+    finally:
+        CFG = saved
+    for prop, vs in b["verdicts"].items():
+        a["verdicts"].setdefault(prop, []).extend([("off:" + rid, v, d) for rid, v, d in vs])
+    a["cases"].update({"off:" + k: c for k, c in b["cases"].items()})
+    for k in ("histories", "events", "tlc_states", "tlc_distinct"):
+        a["stats"][k] = a["stats"].get(k, 0) + b["stats"].get(k, 0)
+    return a
+
+
+def _run_cfg(seed, tier, extra_cases, use_cache, label):
+    key = "package%s-%s-%s-%s-%s" % (label, vlib.driver_hash(), sp.spec_hash(), seed, tier)
     # the JS glue of the repository is part of what is checked
     import hashlib
     h = hashlib.sha256()
@@ -99,10 +123,12 @@ def run(seed, tier, extra_cases=None, use_cache=True):
     rng = random.Random(seed)
     model = vlib.run_model("MC_Package", "MC_Package.cfg" if tier == "quick" else "MC_Package_big.cfg", workers=8, timeout=3000)
     hists = list(model["replays"]) if extra_cases is None else extra_cases
+    if label == "off":
+        hists = hists[::8]
     if extra_cases is None:
         # longer random histories (rewrite / throw interleavings beyond the exhaustive bound)
-        vs = sorted(CLASSES)
-        for i in range(600 if tier == "quick" else 6000):
+        vs = sorted(v for v in CLASSES if not v.startswith("prb"))      # (probe versions have no throw site)
+        for i in range((600 if tier == "quick" else 6000) // (6 if label == "off" else 1)):
             h, loaded = [], {}
             for _ in range(rng.choice([5, 6, 8])):
                 f = rng.choice(sorted(FILES))
